@@ -71,6 +71,64 @@ CHECKS = {
     ),
 }
 
+CHECKS.update({
+    "C01": (
+        "round-trip monitor: generated modules -> real encoder -> real strict "
+        "parser, compared with an independent normalisation relation; failing "
+        "cases isolated to one statement and shrunk",
+        "Random modules over hazard value classes (strings that look like "
+        "keywords/numbers/dates, empty, quotes, reserved characters, line "
+        "breaks, long; sub-ms and zoned times; units; nested sequences/sets; "
+        "duplicate keys; nested blocks) x 4 encoders x random options "
+        "(indent, width, newline, end-name, delimiter, PDS3 options); the "
+        "result of the dialect's strict parser must equal a structural clone "
+        "taken before the dump, up to the five documented normalisations.",
+        "Normaliser, clone and value-class feature extractors are my own "
+        "(vlib/normalise.py, roundtrip.py). Modules holding a value the "
+        "dialect cannot represent are judged on the refusal type only. "
+        "One mechanism is listed in known_findings.json.",
+        "DESIGN.md section 4 C01, 3.2, 3.7",
+    ),
+    "C02": (
+        "round-trip monitor with pvl.loads(text) (no arguments) as reader; "
+        "module.errors must stay empty; pvl.loads(pvl.dumps(m)) identity",
+        "Same generator and option space as C01, read back by the default "
+        "permissive loader; an empty-value repair firing on encoder output is "
+        "a violation; one case stream uses dumps/loads with no arguments.",
+        "As C01. Two mechanisms listed in known_findings.json (block names "
+        "ending in '-', zone-offset-like strings).",
+        "DESIGN.md section 4 C02",
+    ),
+    "C12": (
+        "independent line-level output reader (no pvl import) applying the "
+        "dialect's surface rules to every produced text",
+        "Character set (specification table), configured line terminator "
+        "and no stray CR/LF outside quotes, ODL/PDS3 name form and upper "
+        "case, delimiters iff configured, begin/end keywords per dialect and "
+        "container class, end-statement names iff configured, indentation = "
+        "level x indent, '=' alignment of statements that fit, symbol "
+        "strings on one line, units only after numbers, PDS3 no tabs, final "
+        "END line form, statement structure equal to the input module.",
+        "Scanner rules of DESIGN 3.8 (quotes tracked by a state machine). "
+        "Only modules with plain representable names are scanned for "
+        "structure.",
+        "DESIGN.md section 4 C12, 3.8",
+    ),
+    "C13": (
+        "snapshot monitor: deep structural snapshot of the argument before "
+        "and after each of two dumps; text equality of the two dumps",
+        "Random modules plus modules biased towards the PDS3 in-place "
+        "conversion (top level groups without objects, duplicated names "
+        "around the group, invalid PDS groups), plain dicts; 4 encoders x "
+        "random options; via encoder.encode on a reused instance and via "
+        "pvl.dumps. The only accepted difference is a top-level PVLGroup "
+        "that became a PVLObject with identical items at the same position.",
+        "Snapshot compares structure, order, multiplicity, class and leaf "
+        "repr (not object identity).",
+        "DESIGN.md section 4 C13",
+    ),
+})
+
 NOT_YET = "check not built yet in this round (work in progress; see DESIGN.md section 8 build order)"
 
 ALL = [f"C{n:02d}" for n in range(1, 21)]
